@@ -175,4 +175,119 @@ theorem lineTokens_name {c : Char} {cs : List Char} (n : Nat) (h : isNameStart c
   have hp := nameStart_not_punct' h
   simp only [List.contains_eq_mem, decide_eq_false_iff_not] at hp
   simp [hp]
+/-! ## String literals -/
+
+/-- no closing quote, no match -/
+theorem scanStringBody_none (prev : Char) (s : List Char) (hq : '"' ∉ s) :
+    scanStringBody prev s = none := by
+  induction s generalizing prev with
+  | nil => rfl
+  | cons c s ih =>
+    simp only [List.mem_cons, not_or] at hq
+    rw [scanStringBody.eq_3 _ _ _ (by intro e; exact hq.1 e.symm)]
+    simp [ih c hq.2]
+
+/-- content without `"` and `\`: the literal ends at the first quote, whatever follows -/
+theorem scanStringBody_simple (prev : Char) (cs rest : List Char) (hq : '"' ∉ cs)
+    (hb : '\\' ∉ cs) (hp : prev ≠ '\\') :
+    scanStringBody prev (cs ++ '"' :: rest) = some (cs.length + 1) := by
+  induction cs generalizing prev with
+  | nil => simp [scanStringBody, hp]
+  | cons c cs ih =>
+    simp only [List.mem_cons, not_or] at hq hb
+    rw [List.cons_append, scanStringBody.eq_3 _ _ _ (by intro e; exact hq.1 e.symm)]
+    simp [ih c hq.2 hb.2 (Ne.symm hb.1)]
+
+/-- content without `"` (backslashes allowed), and no `"` later on the line -/
+theorem scanStringBody_last (prev : Char) (cs rest : List Char) (hq : '"' ∉ cs)
+    (hr : '"' ∉ rest) :
+    scanStringBody prev (cs ++ '"' :: rest) = some (cs.length + 1) := by
+  induction cs generalizing prev with
+  | nil => simp [scanStringBody, scanStringBody_none _ _ hr]
+  | cons c cs ih =>
+    simp only [List.mem_cons, not_or] at hq
+    rw [List.cons_append, scanStringBody.eq_3 _ _ _ (by intro e; exact hq.1 e.symm)]
+    simp [ih c hq.2]
+
+
+theorem replaceEscapedQuotes_id (cs : List Char) (hq : '"' ∉ cs) : replaceEscapedQuotes cs = cs := by
+  fun_induction replaceEscapedQuotes cs with
+  | case1 rest ih => simp at hq
+  | case2 c rest hne ih =>
+    simp only [List.mem_cons, not_or] at hq
+    rw [ih hq.2]
+  | case3 => rfl
+
+theorem tag_quote : TP.tag '"' = .other := by decide
+
+theorem scanAt_quote (s : List Char) : scanAt ('"' :: s) = (scanStringBody '"' s).map (· + 1) ∨ (scanStringBody '"' s = none) := by
+  cases h : scanStringBody '"' s with
+  | none => right; rfl
+  | some k =>
+    left
+    simp [scanAt, scanTimePattern_of_tag_other s tag_quote, scanCmp_none s (c := '"') (by decide), scanString, h]
+
+theorem take_append_succ {α} (cs rest : List α) (q : α) :
+    (cs ++ q :: rest).take (cs.length + 1) = cs ++ [q] := by
+  induction cs <;> simp_all
+
+theorem drop_append_succ {α} (cs rest : List α) (q : α) :
+    (cs ++ q :: rest).drop (cs.length + 1) = rest := by
+  induction cs <;> simp_all
+
+/-- a string literal whose body scan stops at the first quote is one match -/
+theorem splitLine_string (f : Nat) (cs rest : List Char)
+    (hs : scanStringBody '"' (cs ++ '"' :: rest) = some (cs.length + 1)) :
+    splitLine (f + 1) ('"' :: (cs ++ '"' :: rest)) = ('"' :: (cs ++ ['"'])) :: splitLine f rest := by
+  have h := scanAt_quote (cs ++ '"' :: rest)
+  rw [hs] at h
+  simp only [Option.map_some, reduceCtorEq, or_false] at h
+  rw [splitLine, h]
+  simp [take_append_succ, drop_append_succ]
+
+
+/-- first character of a word is a name-start character -/
+def startsName (u : String) : Bool :=
+  match u.toList with
+  | c :: _ => isNameStart c
+  | [] => false
+
+theorem tables_startName :
+    LexTables.keywords.all startsName = true ∧ LexTables.registerWords.all startsName = true ∧
+    (LexTables.abbreviations.map (·.1)).all startsName = true := by decide +kernel
+
+theorem not_in_tables {u : String} (h : startsName u = false) :
+    u ∉ LexTables.keywords ∧ u ∉ LexTables.registerWords ∧
+    u ∉ LexTables.abbreviations.map (·.1) := by
+  obtain ⟨h1, h2, h3⟩ := tables_startName
+  rw [List.all_eq_true] at h1 h2 h3
+  refine ⟨fun hm => ?_, fun hm => ?_, fun hm => ?_⟩
+  · rw [h1 u hm] at h; cases h
+  · rw [h2 u hm] at h; cases h
+  · rw [h3 u hm] at h; cases h
+
+theorem lineTokens_string (n : Nat) (cs : List Char) (hq : '"' ∉ cs) (more : List (List Char)) :
+    lineTokens n (('"' :: (cs ++ ['"'])) :: more)
+      = ⟨"LITERAL_STRING", String.ofList cs, n⟩ :: lineTokens n more := by
+  rw [lineTokens]
+  have hu : (String.ofList ('"' :: (cs ++ ['"']))).toList = '"' :: (cs ++ ['"']) := by simp
+  generalize String.ofList ('"' :: (cs ++ ['"'])) = u at hu
+  have hst : startsName u = false := by
+    simp only [startsName, hu]; decide
+  obtain ⟨hk, hr, ha⟩ := not_in_tables hst
+  have hne : (u == "#") = false := by
+    rw [beq_eq_false_iff_ne]
+    intro e
+    have := congrArg String.toList e
+    rw [hu] at this
+    simp at this
+  have hlen : (u.length == 1) = false := by
+    rw [← String.length_toList, hu]; simp
+  have ht : tokenType u = "LITERAL_STRING" := by
+    simp [tokenType, hk, hr, LexTables.classifyOrder, classifyBy, hu,
+      scanTimePattern_of_tag_other _ tag_quote, scanCmp_none _ (c := '"') (by decide), scanString,
+      scanStringBody_last '"' cs [] hq (by simp)]
+  simp only [unabbreviate_of_not_key ha, hne, ht, hlen, hu]
+  simp [replaceEscapedQuotes_id cs hq]
+
 end Bardolph.Lex
